@@ -873,7 +873,7 @@ def run_property(ctx, pid, n_quick, n_thorough):
                 "solve/step(with temporary enable_*/disable_* arguments)/reload/tag/enable/disable/clear_log, re-assignments of Target/Vary "
                 "attributes between calls (tol, value, weight, active, limits, max_step), every other public entry point of Optimize "
                 "(run_simplex, run_ls_*, run_bfgs, run_direct, views, status tables, deprecated enable/disable methods) interleaved, "
-                "rarely used constructor forms; profile " + pid +
+                "rarely used constructor forms, string selectors in every accepted form (single string, list, mixed with ids; exact tag / name, escaped, regular expressions) over tag and name sets with proper prefixes, common suffixes, regex metacharacters, case variants, empty and duplicate tags and indexed names k1..k12; profile " + pid +
                 "; non-trivial = at least one Jacobian step and the mechanism of the property exercised (see feature_key); "
                 "distinct by (function, start, ops, options)")
     proof_ok = vlib.standard_proof_part(ctx, f"props/{pid}.v", allowed_axioms=(), extra_targets=["run/RunOpt.vo"])
